@@ -7,6 +7,7 @@ import (
 	"go/types"
 	"os"
 	"regexp"
+	"runtime/debug"
 	"sort"
 	"strings"
 	"sync"
@@ -205,6 +206,9 @@ func structName(t types.Type) string {
 }
 
 func (c *Enc) structSort(t types.Type, u *types.Struct) Sort {
+	if os.Getenv("EVDEBUG_STRUCT") != "" && foreignNamed(t) {
+		panic("foreign struct " + t.String() + "\n" + string(debug.Stack()))
+	}
 	name := structName(t)
 	if si, ok := c.structs[name]; ok {
 		return si.sort
